@@ -79,7 +79,9 @@ pub fn from_mesh(mesh: &Mesh) -> M {
 
 fn observe_mesh(sim: &Sim, mesh: &Mesh, primitive: bool) -> MeshObs {
     let m = from_mesh(mesh);
-    let n = m.v.len() + m.f.len();
+    // the budget is a function of what the faces refer to: vertices no face uses give no extra time
+    let used: BTreeSet<u32> = m.f.iter().flat_map(|f| f.iter().copied()).collect();
+    let n = used.len() + m.f.len();
     let b = budget(n);
     let normals = if primitive {
         sim.op("Mesh::get_face_normals", b, || {
